@@ -151,9 +151,36 @@ Fixpoint prune_loop (fuel : nat) (todo : list str) (f : fsys) (log : list str) :
 (* every iteration pops an entry or removes a directory *)
 Definition prune_fuel (todo : list str) (f : fsys) : nat := S (length todo + length f).
 
-Definition prune_dirs (dirs : list str) (f : fsys) : fsys * list str :=
+(* the variant with a `seen` set: a path on the stack is examined at most once *)
+Fixpoint prune_loop_seen (fuel : nat) (todo seen : list str) (f : fsys) (log : list str) : fsys * list str :=
+  match fuel with
+  | O => (f, log)
+  | S k =>
+      match todo with
+      | [] => (f, log)
+      | d :: rest =>
+          if existsb (str_eqb d) seen then prune_loop_seen k rest seen f log
+          else
+            let '(f', b) := rmdir_if_empty f d in
+            if b then
+              let par := dirname d in
+              prune_loop_seen k (if parent_ok par then par :: rest else rest) (d :: seen) f' (d :: log)
+            else prune_loop_seen k rest (d :: seen) f log
+      end
+  end.
+
+(* shape REGENERATED statement by statement (prune_visits_once) *)
+Definition prune_dirs_gen (once : bool) (dirs : list str) (f : fsys) : fsys * list str :=
   let todo := sort_desc (dedup dirs) in
-  prune_loop (prune_fuel todo f) todo f [].
+  if once then prune_loop_seen (prune_fuel todo f) todo [] f []
+  else prune_loop (prune_fuel todo f) todo f [].
+
+Definition prune_dirs := prune_dirs_gen prune_visits_once.
+
+(* a tree as a file system has it: whatever exists lies in a directory that exists (snapshots of real trees do) *)
+Definition fs_closedb (f : fsys) : bool :=
+  forallb (fun e => negb (parent_ok (dirname (fst e))) ||
+                    match fs_get f (dirname (fst e)) with Some FDir => true | _ => false end) f.
 
 Record rdf_out := mkRdf {
   r_fs : fsys;
